@@ -87,7 +87,7 @@ func (f *fsession) observe(closed bool) lifeObs {
 		f.tcp.mu.Unlock()
 		o.conns = len(all)
 		for _, pc := range all {
-			if !pc.closed && !pc.peerClosed(150*time.Millisecond) {
+			if !pc.closed && !pc.peerClosed(300*time.Millisecond) {
 				o.open++
 			}
 		}
